@@ -180,5 +180,30 @@ func TestGovcBoundedC10Denotation(t *testing.T) {
 			}
 		}
 	}
+	// fixed texts: YANG integers are decimal (a leading zero does not make a number octal, Go's
+	// prefix notations are no numbers), decimal bounds need digits on both sides of the point
+	for _, fx := range []struct {
+		text    string
+		decimal bool
+		want    string // "" = must be rejected
+	}{
+		{"010..020", false, "10..20"}, {"-007", false, "-7"}, {"0x10..0x20", false, ""}, {"0b11", false, ""}, {"0o17", false, ""}, {"1_000", false, ""}, {"1..0x10", false, ""},
+		{"1.5..2.5", true, "1.5..2.5"}, {"1..2", true, "1.0..2.0"}, {". .. 1.5", true, ""}, {"1. .. 2.0", true, ""}, {".5..1.0", true, ""}, {"-.5..1.0", true, ""}, {"0.5..1.", true, ""},
+	} {
+		evals++
+		var got YangRange
+		var err error
+		if fx.decimal {
+			got, err = ParseRangesDecimal(fx.text, 1)
+		} else {
+			got, err = ParseRangesInt(fx.text)
+		}
+		switch {
+		case fx.want == "" && err == nil:
+			fmt.Printf("GOVC-FAIL name=c10-denotation restriction %q is not written in YANG's decimal notation and is accepted as %v\n", fx.text, got)
+		case fx.want != "" && (err != nil || got.String() != fx.want):
+			fmt.Printf("GOVC-FAIL name=c10-denotation restriction %q parsed as %v (%v), want %s\n", fx.text, got, err, fx.want)
+		}
+	}
 	fmt.Printf("GOVC-BOUNDED name=c10-denotation-brute-force bound=%d_random_restrictions_(seed_%d)_of_<=4_parts_over_[-12,24]_and_min/max_x_6_parents evaluations=%d distinct=%d\n", rounds, seed, evals, len(seen))
 }
